@@ -12,7 +12,7 @@ VTScenarios == {<<"V.main", "V.worker(valid)", "V.worker(valid)">>,
                 <<"V.main", "V.worker(invalid txn)", "V.worker(invalid txn)">>,
                 <<"V.main", "V.worker(round moved on)", "V.worker(round moved on)">>}
 MCScenarios == UPairs(RoundOps) \cup UPairs(BlockOps) \cup CrossScenarios \cup VTScenarios
-QuickScenarios == MCScenarios
+NoGroups == {}
 
 \* static: the operations share a location that one of them writes
 Accs(o) == {s \in {Steps(o)[i] : i \in 1..Len(Steps(o))} : s.k = "acc"}
